@@ -22,7 +22,7 @@ deriving DecidableEq, Repr
 def fieldsOf (s : Style) : Fields := ⟨s.color, s.bgcolor, s.attributes, s.setAttributes, s.link, s.isNull⟩
 
 /-- What the decoder adds for SGR code `code` when it is in the table. -/
-def parsedFields (v : Variant) (code : Nat) : Option Fields :=
+def parsedFields (v : StyleVariant) (code : Nat) : Option Fields :=
   match sgrLookup code with
   | some d =>
     match Style.parse v d with
@@ -37,7 +37,7 @@ def paramOk (c : List Char) (n : Nat) : Bool :=
 
 /-- Attribute bit `i`: the encoder's parameter is a number `k`, and the decoder's table reads `k` as
 "attribute `i` on" and nothing else. -/
-def bitOk (v : Variant) (i : Nat) : Bool :=
+def bitOk (v : StyleVariant) (i : Nat) : Bool :=
   match styleMapCode i with
   | some c =>
     match pyIntDigits c with
@@ -50,7 +50,7 @@ def bitOk (v : Variant) (i : Nat) : Bool :=
 def defaultColor : Color := { name := cl! "default", type := .default }
 
 /-- The sixteen standard colours and `default`, foreground and background. -/
-def colorRowsOk (v : Variant) : Bool :=
+def colorRowsOk (v : StyleVariant) : Bool :=
   (List.range 8).all (fun n =>
     parsedFields v (30 + n) == some ⟨some (fromAnsi n), none, 0, 0, none, false⟩ &&
     parsedFields v (90 + n) == some ⟨some (fromAnsi (n + 8)), none, 0, 0, none, false⟩ &&
@@ -61,7 +61,7 @@ def colorRowsOk (v : Variant) : Bool :=
 
 /-- Every entry of the decoder's table is a style definition that parses, to a non-null style without a
 link whose attribute values lie inside its set attributes (13 bits). -/
-def entriesOk (v : Variant) : Bool :=
+def entriesOk (v : StyleVariant) : Bool :=
   Gen.sgrStyleMap.all fun p =>
     match Style.parse v p.2 with
     | .ok s => s.link == none && !s.isNull && decide (s.attributes &&& s.setAttributes = s.attributes) &&
@@ -69,7 +69,7 @@ def entriesOk (v : Variant) : Bool :=
     | .error _ => false
 
 /-- Code `k` only switches attributes off: at least those of `must`, at most those of `may`. -/
-def offRow (v : Variant) (k must may : Nat) : Bool :=
+def offRow (v : StyleVariant) (k must may : Nat) : Bool :=
   match parsedFields v k with
   | some F => F.color.isNone && F.bgcolor.isNone && F.attributes == 0 && F.link.isNone && !F.isNull &&
       (F.setAttributes &&& must == must) && (F.setAttributes ||| may == may)
@@ -78,11 +78,11 @@ def offRow (v : Variant) (k must may : Nat) : Bool :=
 /-- The "off" codes as ECMA-48 numbers them: 22 normal intensity (not bold, not dim), 23 not italic,
 24 not underlined (rich keeps the double underline; both readings are admitted), 25 steady (likewise for
 the rapid blink), 27 positive image, 28 revealed, 29 not crossed out, 54 not framed / encircled, 55 not overlined. -/
-def offRowsOk (v : Variant) : Bool :=
+def offRowsOk (v : StyleVariant) : Bool :=
   offRow v 22 3 3 && offRow v 23 4 4 && offRow v 24 8 520 && offRow v 25 16 48 && offRow v 27 64 64 &&
   offRow v 28 128 128 && offRow v 29 256 256 && offRow v 54 3072 3072 && offRow v 55 4096 4096
 
-def tablesOk (v : Variant) : Bool :=
+def tablesOk (v : StyleVariant) : Bool :=
   (List.range 13).all (bitOk v) && colorRowsOk v && entriesOk v &&
     sgrLookup 38 == none && sgrLookup 48 == none && offRowsOk v
 
@@ -93,7 +93,7 @@ theorem tables_ok : ∀ a b c d e f : Bool, tablesOk ⟨a, b, c, d, e, f⟩ = tr
 
 theorem digits_ok : digitsOk = true := by decide +kernel
 
-theorem tablesOk_all (v : Variant) : tablesOk v = true := by
+theorem tablesOk_all (v : StyleVariant) : tablesOk v = true := by
   obtain ⟨a, b, c, d, e, f⟩ := v
   exact tables_ok a b c d e f
 
